@@ -23,13 +23,13 @@ uint64_t G_fin_fed; uint8_t G_fin_tbyte; uint8_t G_fin_tseen; unsigned G_fin_cal
 #endif
 
 void sm3_init(SM3_CTX *ctx)
-REQUIRES(W_OK(ctx, sizeof(*ctx)))
+REQUIRES(WR_OK(ctx, sizeof(*ctx)))
 ASSIGNS(OBJ_UPTO((uint8_t *)ctx, sizeof(*ctx)))
 ENSURES(SM3_FED(ctx) == 0 && SM3_TSEEN(ctx) == 0)
 ;
 
 void sm3_update(SM3_CTX *ctx, const uint8_t *data, size_t datalen)
-REQUIRES(RW_OK(ctx, sizeof(*ctx)) && (datalen == 0 || R_OK(data, datalen)))
+REQUIRES(RW_OK(ctx, sizeof(*ctx)) && (datalen == 0 || RD_OK(data, datalen)))
 ASSIGNS(OBJ_UPTO((uint8_t *)ctx, sizeof(*ctx)))
 ENSURES(SM3_FED(ctx) == OLD(SM3_FED(ctx)) + datalen)
 ENSURES((OLD(SM3_FED(ctx)) <= G_tk && G_tk - OLD(SM3_FED(ctx)) < datalen)
@@ -38,7 +38,7 @@ ENSURES((OLD(SM3_FED(ctx)) <= G_tk && G_tk - OLD(SM3_FED(ctx)) < datalen)
 ;
 
 void sm3_finish(SM3_CTX *ctx, uint8_t dgst[SM3_DIGEST_SIZE])
-REQUIRES(RW_OK(ctx, sizeof(*ctx)) && W_OK(dgst, 32))
+REQUIRES(RW_OK(ctx, sizeof(*ctx)) && WR_OK(dgst, 32))
 ASSIGNS(OBJ_UPTO(dgst, 32), G_fin_fed, G_fin_tbyte, G_fin_tseen, G_fin_calls)
 ENSURES(G_fin_fed == SM3_FED(ctx) && G_fin_tbyte == SM3_TBYTE(ctx) && G_fin_tseen == SM3_TSEEN(ctx) && G_fin_calls == OLD(G_fin_calls) + 1)
 ;
